@@ -5,7 +5,7 @@ LEVEL = "exploration"
 def plan(tier, seed):
     quick = tier == "quick"
     nshards = 16
-    cases = 25000 if quick else 1250000      # quick 4e5 systems, thorough 2e7 (DESIGN: 2e5 / 2e7)
+    cases = 60000 if quick else 1250000      # quick 4e5 systems, thorough 2e7 (DESIGN: 2e5 / 2e7)
     big = 300 if quick else 25000            # systems with 20..192 constraints (ConstrSet capacity)
     total = nshards * (cases + big)
     args = ["--cases", cases, "--big", big, "--budget", 20000]
